@@ -432,7 +432,9 @@ func (w *World) handler(c context.Context, ctx *app.RequestContext) {
 		var ci, ri int
 		if _, err := fmt.Sscanf(id, "c%dr%d", &ci, &ri); err == nil && ci < len(w.conns) && w.conns[ci] != nil && ri < len(w.conns[ci].reqTimes) {
 			for _, r := range w.shutdowns {
-				if r.called && r.start < w.conns[ci].reqTimes[ri] {
+				// (without early timer firings only: the virtual clock then moves past the call's start only once the
+				// Shutdown thread has blocked, i.e. after it flipped the status)
+				if r.called && r.start < w.conns[ci].reqTimes[ri] && verifrt.NoSlack() {
 					late = true
 				}
 			}
